@@ -1479,6 +1479,16 @@ impl Check for C09 {
                     s.extend_from_slice(&gen::gen_soup(&mut rng));
                     Source::Raw { stream: s }
                 }
+                9 => {
+                    ctx.counters.bump("kind.wellformed");
+                    let class = gen::gen_class(&mut rng);
+                    Source::Session {
+                        greeting: greeting.clone(),
+                        session: gen::gen_session(&mut rng, class),
+                        cut: None,
+                        fault: None,
+                    }
+                }
                 2 => {
                     ctx.counters.bump("kind.soup_after_valid_prefix");
                     let class = gen::gen_class(&mut rng);
@@ -1568,6 +1578,23 @@ impl Check for C09 {
                     };
                     ctx.about_to_eval(&case);
                     let ev = eval_c09(&case);
+                    // cross-check of the two independent reference components: what the encoder
+                    // says it encoded must be what the scanner reads out of the bytes
+                    if let Source::Session { session, cut: None, fault: None, .. } = &case.source {
+                        if name == "whole" && fl == Flavour::Blocking {
+                            let glen = m.barrier.unwrap_or(0);
+                            let sc = scan::scan(&m.stream[glen..]);
+                            let agree = sc.trailer == scan::Trailer::Clean
+                                && sc.responses.len() == session.len()
+                                && sc
+                                    .responses
+                                    .iter()
+                                    .zip(session.iter())
+                                    .all(|(a, b)| a.literal() == Some(b.canon()));
+                            ctx.counters.add("HARNESS_ERROR.scanner_disagrees_with_encoder", if agree { 0 } else { 1 });
+                            ctx.counters.bump("scanner_encoder_cross_checks");
+                        }
+                    }
                     if ctx.want_sample() && index % 11 == 3 {
                         ctx.sample(sample_json(&case, C09_EXTRA));
                     }
